@@ -99,6 +99,15 @@ class Instance:
         self.n = len(self.elements)
         self.idx = {e: i for i, e in enumerate(self.elements)}
         self.bidx = [bucket_index(r) for r in rankings]
+        # identical rankings are counted once with their multiplicity (datasets with thousands of repeated ballots)
+        mult = {}
+        for r in rankings:
+            k = canon(r)
+            if k in mult:
+                mult[k][1] += 1
+            else:
+                mult[k] = [bucket_index(r), 1]
+        groups = list(mult.values())
         n = self.n
         B, T = self.sc.B, self.sc.T
         # counts[i][j] = six status counts of ordered pair (i, j)
@@ -112,8 +121,8 @@ class Instance:
                     continue
                 y = self.elements[j]
                 c = [0] * 6
-                for bi in self.bidx:
-                    c[status(bi, x, y)] += 1
+                for bi, w in groups:
+                    c[status(bi, x, y)] += w
                 self.counts[i][j] = c
                 self.before[i][j] = sum(B[k] * c[k] for k in range(6))
                 self.tied[i][j] = sum(T[k] * c[k] for k in range(6))
